@@ -720,4 +720,74 @@ theorem decodeId_fits (raw : Text) (id : Id) (h : decodeId raw = some id) : idFi
       · simp at h; subst h; trivial
       · simp at h
 
+theorem respCore_idFits (cj cr ce ci : Nat) (j r e i : Option Text) (resp : Response)
+    (h : respCore cj cr ce ci j r e i = some resp) : idFits resp.id := by
+  unfold respCore at h
+  split at h
+  · simp at h
+  · simp only at h
+    split at h
+    · split at h
+      · simp at h
+      · rename_i id hid
+        have hf := decodeId_fits _ _ hid
+        split at h
+        · simp at h
+        · simp at h; rw [← h]; exact hf
+        · split at h
+          · simp at h; rw [← h]; exact hf
+          · simp at h
+        · simp at h
+    · simp at h
+
+theorem decodeResponse_idFits (raw : Text) (r : Response) (h : decodeResponse raw = some r) : idFits r.id := by
+  unfold decodeResponse at h
+  split at h
+  · simp at h
+  · split at h
+    · simp at h
+    · exact respCore_idFits _ _ _ _ _ _ _ _ _ h
+
+def RangeFits : Option (Nat × Nat) → Prop
+  | none => True
+  | some (lo, hi) => lo ≤ hi ∧ hi ≤ u64Max
+
+theorem widen_fits (r : Option (Nat × Nat)) (id : Nat) (h : RangeFits r) (hid : id ≤ u64Max) : RangeFits (some (widen r id)) := by
+  unfold widen
+  cases r with
+  | none => exact ⟨Nat.le_refl _, hid⟩
+  | some p =>
+    obtain ⟨lo, hi⟩ := p
+    simp only [RangeFits] at h ⊢
+    constructor <;> (repeat' split) <;> omega
+
+theorem arrayLoop_rangeFits (es : List Text) : ∀ (acc acc' : ArrAcc) (f : Option Fatal),
+    arrayLoop acc es = (acc', f) → RangeFits acc.range → RangeFits acc'.range := by
+  induction es with
+  | nil => intro acc acc' f h hr; simp [arrayLoop] at h; rw [← h.1]; exact hr
+  | cons e rest ih =>
+    intro acc acc' f h hr
+    rw [arrayLoop] at h
+    cases hc : classifyIncoming e with
+    | response r =>
+      simp only [hc] at h
+      cases hid : idNum r.id with
+      | none => simp [hid] at h; rw [← h.1]; exact hr
+      | some id =>
+        simp only [hid] at h
+        have hfit := idNum_fits r.id id (decodeResponse_idFits e r ((classify_response e r).1 hc)) hid
+        exact ih _ _ _ h (widen_fits acc.range id hr hfit)
+    | garbage => simp [hc] at h; rw [← h.1]; exact hr
+    | subNotif s p => simp only [hc] at h; exact ih _ _ _ h hr
+    | subClose s => simp only [hc] at h; exact ih _ _ _ h hr
+    | notif m p => simp only [hc] at h; exact ih _ _ _ h hr
+
+/-- `range.end.checked_add(1)`: either the exact successor, still a u64, or the `Invalid` error at 2^64-1 -/
+theorem rangeEnd_fits (hi : Nat) (h : hi ≤ u64Max) :
+    (rangeEnd hi = .ok (hi + 1) ∧ hi + 1 ≤ u64Max) ∨ (hi = u64Max ∧ rangeEnd hi = .err (.invalidNum hi)) := by
+  unfold rangeEnd
+  by_cases e : hi = u64Max
+  · right; exact ⟨e, by simp [e]⟩
+  · left; exact ⟨by simp [e], by omega⟩
+
 end Jrpc.ClientTasks
